@@ -125,7 +125,22 @@ func init() {
 	un(mDec+"IsPositive", func(a string) string { return sApp(">", a, "0") }, bv)
 	un(mDec+"IsNegative", func(a string) string { return sApp("<", a, "0") }, bv)
 	un(mDec+"Ceil", func(a string) string { return sApp("decCeil", a) }, iv)
-	un(mDec+"TruncateInt", func(a string) string { return sApp("decTruncInt", a) }, iv)
+	// TruncateInt with two machine-checked simplifications (lemmas quo-trunc-is-floor and ceil-trunc-is-ceildiv of
+	// 00_spec.spec, discharged by every C04 run): floor(floor(a*S^3/X)/S)/S = floor(a*S/X) and trunc(ceil(t)) = ceil(t/S)
+	un(mDec+"TruncateInt", func(a string) string {
+		orig := sApp("decTruncInt", a)
+		if e, err := parseSx(a); err == nil && !e.isAtom() && len(e.kids) == 3 && e.kids[0].atom == "decQuoTrunc" {
+			n, X := e.kids[1].String(), e.kids[2].String()
+			if strings.HasPrefix(n, "(* ") && strings.HasSuffix(n, " S)") {
+				return sIte("(and (>= "+n+" 0) (> "+X+" 0))", sApp("div", n, X), orig)
+			}
+		}
+		if e, err := parseSx(a); err == nil && !e.isAtom() && len(e.kids) == 2 && e.kids[0].atom == "decCeil" {
+			t := e.kids[1].String()
+			return sIte("(>= "+t+" 0)", sApp("ceilDiv", t, "S"), orig)
+		}
+		return orig
+	}, iv)
 	un(mDec+"String", func(a string) string { return sApp("DecString", a) }, func(t string) Val { return Sc{T: t, Sort: "Str"} })
 	externs[mDec+"IsNil"] = externs[mInt+"IsNil"]
 	for _, q := range [][2]string{{"Quo", "decQuo"}, {"QuoTruncate", "decQuoTrunc"}} {
